@@ -404,3 +404,19 @@ def as_real(ex, st, v: V):
 def field(st: State, obj: V, name: str):
     """Boxed (sort Val) value of obj.name in state st."""
     return z3.Select(st.get_arr('f:' + name), obj.e)
+
+
+class ScanCheck(Check):
+    """[F] finite exhaustive syntactic check over the real sources (every site of a kind is visited)."""
+
+    tag = 'F'
+
+    def scan(self, repo: Repo):
+        """-> list of (name, ok: bool, info: dict)."""
+        raise NotImplementedError
+
+    def generate(self, repo: Repo):
+        items = self.scan(repo)
+        vcs = [VC(f'{self.id}.{n}', [], z3.BoolVal(bool(ok)), 'scan', info) for n, ok, info in items]
+        return vcs, {'function': None, 'sites': len(items), 'trusted': list(self.trusted),
+                     'scan_sites': [dict(info, ok=bool(ok), name=n) for n, ok, info in items][:60]}
